@@ -21,7 +21,7 @@ LEVEL_TEXT = ('templates, pooled covariance and its pseudo-inverse are compared 
               'computed (a) from the exposed templates and covariance and (b) from the oracle\'s own; the best candidate must agree when the lead exceeds the tolerance. Exploration over sampled sets and histories.')
 LEVEL_NOTE = 'trusted: numpy.cov / numpy.linalg.pinv in float64 as reference linear algebra'
 ASSUMPTIONS = [
-    'every declared class has at least 2 building traces (the unbiased covariance of the statement is undefined otherwise)',
+    'every populated class has at least 2 building traces (the unbiased covariance of the statement is undefined otherwise); declared classes WITHOUT any building trace are generated: they count in the average over declared classes and contribute no scatter (literal reading of the statement; their template rows are not asserted)',
     'pooled covariances with condition number > 1e4 (duplicated / constant samples, fewer degrees of freedom than samples are generated on purpose): pooled_covariance_inv must still be numpy.linalg.pinv of the exposed covariance and the scores must follow from the exposed profile; the comparison with the oracle\'s own covariance is skipped there',
     'tolerances: covariance 64 eps (max|x|^2+1) (x n for real-valued traces); scores: first-order propagation through the pseudo-inverse (cond x relative covariance error)',
 ]
@@ -30,7 +30,8 @@ POOL = [[0, 1], [0, 1, 2], [2, 0, 1], [0, 1, 2, 3], [3, 1, 0, 2], [0, 2, 5], [7,
 
 
 def _mk_attack(case, build_traces, build_lab):
-    P = [int(v) for v in case['partitions']]
+    P = [int(v) for v in case['partitions']]            # populated classes
+    PA = _declared(case)                                 # declared classes (populated ones plus classes without any building trace)
     k = len(P)
     G = int(case['guesses'])
 
@@ -49,9 +50,17 @@ def _mk_attack(case, build_traces, build_lab):
     cont = scared.Container(ths)
     if case['attack'] == 'dpa':
         return scared.TemplateDPAAttack(container_building=cont, selection_function=asf, reverse_selection_function=rsf,
-                                        model=scared.Value(), precision=case['precision'], partitions=list(P))
+                                        model=scared.Value(), precision=case['precision'], partitions=list(PA))
     return scared.TemplateAttack(container_building=cont, reverse_selection_function=rsf,
-                                 model=scared.Value(), precision=case['precision'], partitions=list(P))
+                                 model=scared.Value(), precision=case['precision'], partitions=list(PA))
+
+
+def _declared(case):
+    P = [int(v) for v in case['partitions']]
+    out = list(P)
+    for pos, v in case.get('empty_classes') or []:
+        out.insert(min(int(pos), len(out)), int(v))
+    return out
 
 
 def _oracle_profile(traces, lab, P):
@@ -63,7 +72,7 @@ def _oracle_profile(traces, lab, P):
         counts.append(len(xs))
         mus.append(xs.mean(axis=0))
         covs.append(np.atleast_2d(np.cov(xs, rowvar=False, ddof=1)).reshape(L, L))
-    return np.array(mus), np.mean(covs, axis=0), counts
+    return np.array(mus), np.sum(covs, axis=0), counts
 
 
 def _scores(mt, tpl, pinv, index_fn, ncand):
@@ -112,13 +121,20 @@ def _check(ctx, case):
         warnings.simplefilter('ignore')
         must(case, '%s.build()' % attack, a.build)
     mu, cov, counts = _oracle_profile(bt, bl, P)
+    PA = _declared(case)
+    K = len(PA)
+    pos = [PA.index(c) for c in P]           # row of each populated class in the declared list
+    # average over the DECLARED classes: a declared class without building traces has no scatter and contributes a zero matrix
+    cov = cov / K
     integral = stats.is_integral(bt)
     mx = float(np.max(np.abs(bt.astype('float64'))))
     nb = bt.shape[0]
     L = bt.shape[1]
     tpl = np.asarray(a.templates, dtype='float64')
-    if tpl.shape != (k, L):
-        raise Violation('%s: templates shape %s, expected (classes, trace length) = %s' % (attack, tpl.shape, (k, L)), case)
+    if tpl.shape != (K, L):
+        raise Violation('%s: templates shape %s, expected (declared classes, trace length) = %s' % (attack, tpl.shape, (K, L)), case)
+    tpl_all = tpl
+    tpl = tpl_all[pos]
     tol_mu = 8 * eps * (mx + 1) * (1 if integral else max(counts))
     bad = np.abs(tpl - mu) > tol_mu
     if bad.any():
@@ -154,9 +170,9 @@ def _check(ctx, case):
         if attack == 'dpa':
             G = int(case['guesses'])
             ncand = G
-            index_fn = lambda g: (pt + g) % k            # noqa: E731  position of the hypothesised class value in P
+            index_fn = lambda g: np.array(pos)[(pt + g) % k]            # noqa: E731  row of the hypothesised class value in the declared list
         else:
-            ncand = k
+            ncand = K
             index_fn = lambda c: c                        # noqa: E731
         if scores.shape != (ncand,):
             raise Violation('%s: scores shape %s, expected (%d,)' % (attack, scores.shape, ncand), case)
@@ -165,7 +181,7 @@ def _check(ctx, case):
         if not cond < 1e4:
             # rank-deficient / ill-conditioned covariance: only the relation to the exposed profile is asserted, with the
             # rounding of the subtraction amplified by the norm of the pseudo-inverse
-            sa = _scores(mt, tpl, pinv_pc, index_fn, ncand)
+            sa = _scores(mt, tpl_all, pinv_pc, index_fn, ncand)
             mxm = float(np.max(np.abs(mt.astype('float64')))) + mx + 1
             normp = float(np.linalg.norm(pinv_pc, 2))
             tol_s = 64 * eps * mxm * mxm * normp * L + 1e-9 * (np.abs(10 - sa) + 1)
@@ -175,8 +191,10 @@ def _check(ctx, case):
                     attack, precision, ri + 1, c, scores[c], sa[c]), case)
             ctx.count('score_vectors_compared_rank_deficient' if normp < 1e8 else 'skipped_scores_ill_conditioned')
             continue
-        sa = _scores(mt, tpl, pinv_pc, index_fn, ncand)
-        sb = _scores(mt, mu, pinv_o, index_fn, ncand)
+        mu_all = np.array(tpl_all, copy=True)
+        mu_all[pos] = mu                      # oracle means for the populated classes (rows of empty declared classes are taken as exposed)
+        sa = _scores(mt, tpl_all, pinv_pc, index_fn, ncand)
+        sb = _scores(mt, mu_all, pinv_o, index_fn, ncand)
         mxm = float(np.max(np.abs(mt.astype('float64')))) + mx + 1
         d_a = np.abs(10 - sa) + 1
         tol_a = 16 * eps * mxm * mxm / lam_min + 1e-9 * cond * d_a
@@ -202,6 +220,8 @@ def _check(ctx, case):
         labels.append('rank_deficient_or_ill_conditioned_covariance')
     if P != sorted(P) or P != list(range(k)):
         labels.append('non_contiguous_class_list')
+    if K > k:
+        labels.append('declared_class_without_building_traces')
     ctx.case(case, unbalanced and multi, labels)
 
 
@@ -300,7 +320,8 @@ def cases(draw, attack, precision, tdtypes, pool_seed=0):
         matching.append({'traces': mt, 'pt': pt.astype('uint8')})
     return {'kind': 'template', 'attack': attack, 'precision': precision, 'partitions': list(P), 'build_traces': bt, 'build_labels': lab.astype(ddt).reshape(n, 1),
             'batch_size': draw(st.sampled_from([0, 0, 1, 3, 5, 7, 16])), 'guesses': draw(st.integers(2, 5)), 'matching': matching,
-            'run_before_build': draw(st.sampled_from([False, False, True]))}
+            'run_before_build': draw(st.sampled_from([False, False, True])),
+            'empty_classes': [[draw(st.integers(0, k)), max(P) + 11 + 3 * j] for j in range(draw(st.sampled_from([0, 0, 0, 1, 2])))]}
 
 
 def unit_generated(ctx, attack, precision, tdtypes, n):
@@ -325,7 +346,8 @@ def selftest():
     assert np.allclose(mu, [[2, 3], [8, 13 / 3]]) and counts == [3, 3]
     c0 = np.cov(X[:3].T)
     c1 = np.cov(X[3:].T)
-    assert np.allclose(cov, (c0 + c1) / 2)
+    assert np.allclose(cov, c0 + c1)          # _oracle_profile returns the SUM of the per-class covariances (the caller divides by the number of declared classes)
+    cov = cov / 2
     s = _scores(X[:1], mu, np.linalg.pinv(cov), lambda c: c, 2)
     v = X[0] - mu[0]
     assert abs(s[0] - (10 - v @ np.linalg.pinv(cov) @ v / 2)) < 1e-12
